@@ -103,6 +103,7 @@ def _halfway_event(pairs, rec):
 def judge_slice(case, rec):
     sv, q = case["survey"], case["query"]
     part = lib.cube(zz9enc.encode(sv, q), case["transforms"]).partitions[0]
+    lib.warm(part, case.get("warmup"))
     orc = Oracle(sv, q)
     rec.event("shape=" + "x".join(case["shape"]))
     rspecs, cspecs = _specs(part, orc, case)
@@ -224,6 +225,7 @@ def judge_slice(case, rec):
 def judge_strand(case, rec):
     sv, q = case["survey"], case["query"]
     part = lib.cube(zz9enc.encode(sv, q), case["transforms"]).partitions[0]
+    lib.warm(part, case.get("warmup"))
     orc = Oracle(sv, q)
     rec.event("shape=" + "x".join(case["shape"]))
     integer = orc.W is None or all(float(w).is_integer() for w in sv["weights"])
